@@ -444,7 +444,7 @@ func selfdestructDuals(f h.Fork) []DualCase {
 				a := h.NewAsm()
 				order := [][]int{{1, 1}, {2, 1}, {1, 2, 1}, {3, 1, 3}, {2, 2, 1, 1}, {3, 3, 2}}[(bi+int(bal))%6]
 				for _, t := range order {
-					a.PushU(0).PushU(0).PushU(0).PushU(0).PushU(uint64(bal % 2)).PushAddr(h.ContractAddr(t)).PushU(100000).Op(h.CALL, h.POP)
+					a.PushU(0).PushU(0).PushU(0).PushU(0).PushU(uint64(bal%2)).PushAddr(h.ContractAddr(t)).PushU(100000).Op(h.CALL, h.POP)
 				}
 				// what the transaction can still see of the destroyed contracts and their beneficiaries
 				for i, who := range []common.Address{h.ContractAddr(1), h.ContractAddr(2), h.ContractAddr(3), ben1} {
